@@ -112,6 +112,9 @@ class World:
         self.running = False
         self.rows = []                   # dict(t, dt, latest{topic:id}, lpar{p:v}, hl, hp)
         self.procs = {}
+        self.proc_mode = False
+        self.content_ids = True          # harness messages carry their id in `time`; real nodes do not
+        self.ltime = {}                  # topic -> time stamp inside the message last delivered to the logger
         self.problems = []               # (key, what, data) property-level findings
         self.callback_error = None
         self.param_hist = []             # core values after each broadcast: (msg id, {name: value})
@@ -139,6 +142,8 @@ class World:
         if line is None:
             if nested:
                 line = self.emit(a="Nested", topic=topic, msg=mid)
+            elif self.proc_mode:        # a real node's own simpy process (e.g. Simulator.run) publishes
+                line = self.emit(a="ProcPublish", topic=topic, t_now=self.now(), msg=mid)
             else:
                 line = self.emit(a="PublishBegin", topic=topic, ty=self.cur_ty or type(msg).__name__, err="ok", msg=mid)
         elif line.get("a") in ("Wake", "ProcPublish"):
@@ -185,6 +190,8 @@ class World:
                 self.problem("publish/content/id", f"subscriber {sid} saw id {msg.data['time']} inside message {fr['msg']}")
             if sid == 0:
                 self.lrecv.setdefault(fr["topic"], []).append(fr["msg"])
+                if fr["topic"] != "params":
+                    self.ltime[fr["topic"]] = float(msg.data["time"])
             else:
                 self.recv[sid].append(fr["msg"])
             return cb(msg)
@@ -202,10 +209,15 @@ class World:
                 latest[t] = self.lrecv[t][-1] if self.lrecv.get(t) else -1      # Params carry no id
             else:
                 v = float(row[t]["time"])
-                latest[t] = -1 if math.isnan(v) else int(v)
+                if self.content_ids:
+                    latest[t] = -1 if math.isnan(v) else int(v)
+                else:                   # real nodes: compare the time stamp with the one delivered last
+                    exp = self.ltime.get(t, float("nan"))
+                    same = (v == exp) or (math.isnan(v) and math.isnan(exp))
+                    latest[t] = (self.lrecv[t][-1] if self.lrecv.get(t) else -1) if same else -2
         r = {"t": quanta(float(row["time"])), "dt": quanta(lg.dt.get()), "latest": latest, "lpar": lpar,
              "hl": {t: (self.lrecv[t][-1] if self.lrecv.get(t) else -1) for t in lg.subs},
-             "hp": self.core_params() if self.inited else {}}
+             "hp": self.core_params() if self.inited else {}, "ltime": dict(self.ltime)}
         self.rows.append(r)
         self.emit(a="LoggerRow", t_now=r["t"], dt=r["dt"], latest=dict(latest),
                   lpar={k: v for k, v in lpar.items()})
@@ -468,6 +480,11 @@ class World:
                 if t == "params":
                     continue
                 v = float(arr[t]["time"][k])
+                if not self.content_ids:
+                    exp = r["ltime"].get(t, float("nan"))
+                    if not (v == exp or (math.isnan(v) and math.isnan(exp))):
+                        out.append(("logger/row/aliased", f"row {k} topic {t}: final log holds time stamp {v}, at append it held {exp}"))
+                    continue
                 got = -1 if math.isnan(v) else int(v)
                 if got != mid:
                     out.append(("logger/row/aliased", f"row {k} topic {t}: final log holds message {got}, at append it held {mid}"))
